@@ -3,7 +3,7 @@
 //!
 //! Programs are compiled in groups (one simulation per group, each program on processes of its
 //! own); if a group is rejected, each of its programs is compiled alone to name the culprit. Every
-//! compiled program is then run once with a trivial body under `exhaustive()`; a run-time panic
+//! compiled program is then run with a trivial body (all schedules with <= 1 deviation); a run-time panic
 //! there is an OBSERVATION, not a verdict (the statement is about building the dataflow).
 use std::time::Instant;
 
@@ -15,7 +15,8 @@ use vf_explore::{Report, Stats, Value, catch, json};
 use vf_hydro_sim2::c41progs as p;
 use vf_hydro_sim2::slices;
 
-use crate::{Rec, exhaustive, machinery};
+use crate::driver::{RunEnd, run_with_chooser};
+use crate::{Rec, machinery};
 
 type Tx = SimSender<u32, TotalOrder, ExactlyOnce>;
 type Rx = SimReceiver<u64, NoOrder, ExactlyOnce>;
@@ -179,7 +180,7 @@ fn class(m: &str) -> String {
 
 pub fn run(rep: &mut Report, _thorough: bool, replay: Option<Value>) {
     rep.rule = "case = one program of a fixed family of small well-typed Hydro flows (atomic regions consumed by 1-3 ticks, merged regions, yield_atomic / across_ticks round trips, slices sharing state through use::atomic / use::snapshot / use::state(_null), tick cycles, defer_tick, forward refs at top level / in a tick / completed atomically, tees into tick + top-level state, keyed variants, a network hop, a 2-member cluster); distinct = program".into();
-    rep.explanation = "every program must be accepted by the SIMULATOR builder: flow.sim().compiled() (compile_network, unify_atomic_ticks, per-location and per-tick DFIR graph construction, partitioning, code generation, rustc of the generated dylib) must not panic; each compiled program is then run once under exhaustive() with 1-2 inputs per port, only to count executions — a run-time panic there is an OBSERVATION, not a violation".into();
+    rep.explanation = "every program must be accepted by the SIMULATOR builder: flow.sim().compiled() (compile_network, unify_atomic_ticks, per-location and per-tick DFIR graph construction, partitioning, code generation, rustc of the generated dylib) must not panic; each compiled program is then run with 1-2 inputs per port under every schedule with at most one non-default simulator decision (hook H3), only to count executions — a run-time panic there is an OBSERVATION, not a violation".into();
     rep.assume("programs are compiled in groups sharing one simulation; a rejected group is re-compiled program by program to name the culprit");
     rep.assume("constructs the simulator documents as unsupported (todo!: top-level unbounded reduce, non-atomic Optional yield, unbounded keyed singletons, wall-clock sources) are not in the family");
     let n_programs: usize = GROUPS.iter().map(|g| g.1.len()).sum();
@@ -246,25 +247,32 @@ pub fn run(rep: &mut Report, _thorough: bool, replay: Option<Value>) {
         let mut runs = 0usize;
         for (sim, ios) in &compiled {
             for io in ios {
+                // all schedules with at most one non-default simulator decision (hook H3)
                 let rec: Rec<Vec<u64>> = Rec::new();
                 let per_port: u32 = if io.ins.len() <= 2 { 2 } else { 1 };
-                let r = exhaustive(sim, async || {
-                    for (k, tx) in io.ins.iter().enumerate() {
-                        for v in 1..=per_port {
-                            tx.send(k as u32 * 2 + v);
+                let mut panics: Vec<String> = vec![];
+                let ex = vf_explore::explore(Some(1), 2000, |ch| {
+                    let (end, _overflow) = run_with_chooser(sim, ch, 5000, async || {
+                        for (k, tx) in io.ins.iter().enumerate() {
+                            for v in 1..=per_port {
+                                tx.send(k as u32 * 2 + v);
+                            }
                         }
+                        rec.push(io.out.collect_sorted().await);
+                    });
+                    if let RunEnd::Panicked(m) = end {
+                        panics.push(m);
                     }
-                    rec.push(io.out.collect_sorted().await);
                 });
                 let outs = rec.take();
-                runs += outs.len();
+                runs += ex.executions as usize;
                 for o in &outs {
                     st.outcome(&(io.name, o));
                 }
-                st.sample(|| json!({"program": io.name, "schedules": outs.len(), "first_output": format!("{:?}", outs.first())}));
-                if let Err(m) = r {
-                    println!("OBSERVATION: property=C41 simulator run of {} panicked: {}", io.name, first_line(&m));
-                    observations.push(json!({"program": io.name, "panic": first_line(&m)}));
+                st.sample(|| json!({"program": io.name, "schedules": ex.executions, "first_output": format!("{:?}", outs.first())}));
+                if let Some(m) = panics.first() {
+                    println!("OBSERVATION: property=C41 simulator run of {} panicked in {} of {} schedules: {}", io.name, panics.len(), ex.executions, first_line(m));
+                    observations.push(json!({"program": io.name, "panicking_schedules": panics.len(), "panic": first_line(m)}));
                 }
             }
         }
